@@ -103,7 +103,7 @@ v("c05-layer-bound-dropped", {"C05"}, (AW, "            for i in range(min(len(s
                                         "            for i in range(len(self.walks_to_fix)):\n                walk = self.walks_to_fix[i]\n                if not walk:\n                    continue\n\n                # Count multiplicities", 1))
 v("c05-option-key-typo", {"C05"}, (MFDC, "given_weights_optimization_options[\"allow_empty_walks\"] = True", "given_weights_optimization_options[\"allow_empty_walk\"] = True", 1))
 v("c05-encoder-before-create", {"C05"}, (KPC, "        # This method is called from the super class AbstractPathModelDAG\n        self.create_solver_and_paths()\n\n        # This method is called from the current class to encode the path cover\n        self._encode_path_cover()",
-                                          "        self.solver = None\n        self._encode_path_cover() if False else None\n        self.create_solver_and_paths()\n        self._encode_path_cover()", 1))
+                                          "        self._encode_path_cover()\n        self.create_solver_and_paths()", 1))
 v("c06-restore-dropped", {"C06"}, (SPCC, "        adj_dict[v].pop()      #remove reversed edges\n        adj_dict[u].append(v)  #reinsert removed edges\n\n    return first_bridge", "        adj_dict[u].append(v)  #reinsert removed edges\n\n    return first_bridge", 1))
 v("c06-lock-dropped", {"C06"}, (SPC, "            with worker_locks[worker_id]:\n                if isinstance(edge, tuple):", "            if True:\n                if isinstance(edge, tuple):", 1))
 v("c06-multiplicity-guard-dropped", {"C06"}, (AW, "                        if m != 1:\n                            utils.logger.critical", "                        if False:\n                            utils.logger.critical", 1))
